@@ -10,7 +10,7 @@ from __future__ import annotations
 import ast
 from typing import Callable, Dict, Optional, Set
 
-DOMAIN = range(100, 600)
+DOMAIN = range(100, 1000)  # every 3-digit status a document can declare (OpenAPI allows only 1xx-5xx, the generator accepts any digits)
 
 HTTPX_FLAGS: Dict[str, Callable[[int], bool]] = {
     "is_informational": lambda c: 100 <= c <= 199,
